@@ -54,6 +54,80 @@ def q_parity(reg, prop):
     reg.assume(ASSUMPTION)
 
 
+def _apps(e, fname):
+    out, seen, stack = [], set(), [e]
+    while stack:
+        t = stack.pop()
+        if t.get_id() in seen:
+            continue
+        seen.add(t.get_id())
+        if z3.is_app(t):
+            if t.decl().name() == fname and t.num_args() > 0:
+                out.append(t)
+            stack.extend(t.children())
+    return out
+
+
+def helper_parity(me, helper, E, Em):
+    """The inner-quadrature helper enters the 2-D function by contract; for the parity claim its contract must include
+    'even under the sign change its arguments undergo when q -> -q'.  The positions are read off the two symbolic runs
+    (an argument is flipped when its normal form changes sign, unchanged when it stays; anything else: no lemma), and
+    the lemma H(.., -a_k, ..) = H(.., a_k, ..) is proved on the Sigma-normal-form summand of the helper's own body
+    (loops summarised, special-function parity given).  Returns the tuple of positions or None."""
+    plus, minus = _apps(E, helper), _apps(Em, helper)
+    if len(plus) != 1 or len(minus) != 1:
+        return None
+    positions = []
+    for k in range(plus[0].num_args()):
+        a, b = plus[0].arg(k), minus[0].arg(k)
+        try:
+            pa, pb = polynf.to_poly(a, {}), None
+            atoms = {}
+            pa, pb = polynf.to_poly(a, atoms), polynf.to_poly(b, atoms)
+        except polynf.NotPolynomial:
+            return None
+        if (pa - pb).is_zero():
+            continue
+        if (pa + pb).is_zero():
+            positions.append(k)
+        else:
+            return None
+    if not positions:
+        return ()
+    # the helper's own body, all arguments symbolic
+    fn = me.tu.functions[helper]
+    params = [c_ for c_ in fn.get("inner", []) if c_.get("kind") == "ParmVarDecl"]
+    args = []
+    for k, prm in enumerate(params):
+        qt = prm["type"]["qualType"]
+        if "*" in qt or "[" in qt:
+            return None
+        args.append(z3.Int("h_arg%d" % k) if qt.strip() in ("int", "int32_t", "const int") else z3.Real("h_arg%d" % k))
+    saved = getattr(me, "extra_uninterpreted", set())
+    me.extra_uninterpreted = set(saved) - {helper}
+    try:
+        ret, defs = me.run_fn(helper, args)
+    finally:
+        me.extra_uninterpreted = saved
+    polynf._ctx["limit"] = 4000
+    try:
+        nf = sigma.normal_form(ret, defs)
+    finally:
+        polynf._ctx["limit"] = None
+    chains = {}
+    for ch, s in nf:
+        key = tuple(d.index.sexpr() for d in ch)
+        chains[key] = chains.get(key, z3.RealVal(0)) + s
+    flip = [(args[k], -args[k]) for k in positions]
+    for key, S in chains.items():
+        S = polynf.expand_inverses(S)
+        Sm = z3.substitute(S, *flip)
+        st, _ = polynf.decide(S == Sm, trig_pairs([S, Sm]), parity=PARITY, limit=4000)
+        if st != "unsat":
+            return None
+    return tuple(positions)
+
+
 def _q_job(sub, job):
     prop, name = job
     oid = "%s.parity.particle_frame_intensity_is_even_in_q.%s" % (prop, name)
@@ -65,13 +139,27 @@ def _q_job(sub, job):
         fn = tu.functions[two_d]
         sub.function_under_contract("generated[%s]:%s" % (name, two_d), "sasmodels/models/%s.c" % name,
                                     fn["loc"].get("presumedLine", 0), 0, tu.func_text(fn))
+        from contracts.c12 import pure_loop_helpers
+        from contracts.modelfn import lib_functions
+        helpers = pure_loop_helpers(tu, two_d, lib_functions(tu))
+        me.extra_uninterpreted = set(helpers)
         qa, qb, qc = z3.Real("qa"), z3.Real("qb"), z3.Real("qc")
         if two_d == "Iqabc":
             E, Em = me.run_2d([qa, qb, qc]), me.run_2d([-qa, -qb, -qc])
         else:
             E, Em = me.run_2d([qa, qc]), me.run_2d([qa, -qc])        # (qab, qc)
         E, Em = polynf.expand_inverses(E), polynf.expand_inverses(Em)
-        st, wit = polynf.decide(E == Em, trig_pairs([E, Em]), parity=PARITY, limit=4000)
+        table = dict(PARITY)
+        for h in helpers:
+            pos = helper_parity(me, h, E, Em)
+            if pos is None:
+                raise OutsideSubset("no parity lemma for the inner quadrature %s" % h)
+            if pos:
+                table[h] = ("even", pos)
+                fnh = tu.functions[h]
+                sub.function_under_contract("generated[%s]:%s" % (name, h), "sasmodels/models/%s.c" % name,
+                                            fnh["loc"].get("presumedLine", 0), 0, tu.func_text(fnh))
+        st, wit = polynf.decide(E == Em, trig_pairs([E, Em]), parity=table, limit=4000)
     except (OutsideSubset, polynf.NotPolynomial) as exc:
         rep, info = replay_q_parity(name)
         if rep:
